@@ -26,7 +26,7 @@ ASSUMPTIONS = [
     "liquidity models: infinite, volume share (25%,10%), (25%,50%: slippage larger than a grid step), (33%,0)",
     "'up to rounding to quote precision' = half a quote unit per fill",
 ]
-BOUNDS = {"quick": dict(grid=3, bars=2), "thorough": dict(grid=5, bars=3)}
+BOUNDS = {"quick": dict(grid=3, bars=3), "thorough": dict(grid=5, bars=3)}
 EXPLANATION = ("bounded exhaustive input-shape enumeration against the real exchange; no separate model, so "
                "traces_validated_against_impl counts the cases (each is an implementation run)")
 P = PAIRS[0]
@@ -52,7 +52,7 @@ def shapes(grid):
 
 
 def scenarios(tier, seed):
-    out = []
+    out = [("long", kind, side) for kind in ("mkt", "lim", "stp", "sl") for side in ("B", "S")]
     for ci in range(len(CONFIGS)):
         for kind in ("mkt", "lim", "stp", "sl"):
             for side in ("B", "S"):
@@ -167,8 +167,69 @@ def run_case(cfg, kind, side, amount, lim, stp, bars):
     return bad, traded
 
 
+def run_long(sc, tier, res):
+    """Completeness on long two-pair histories: an order on one pair rests while N bars of ANOTHER pair go by (the
+    exchange looks its open orders up on each of them, re-indexing the list every 50 look-ups); the first bar of its own
+    pair that should fill it must fill it. Infinite liquidity, ample funds."""
+    from worlds.exch import PAIRS as ALLP
+    _, kind, side = sc
+    P2 = ALLP[1]
+    maxn = 130 if tier == "quick" else 260
+    for n_other in range(0, maxn):
+        for extra_lookups in (0, 1, 2):
+            d = bs.backtesting_dispatcher()
+            e = ex.Exchange(d, {"USD": D(10 ** 9), "BTC": D(10 ** 6), "ETH": D(10 ** 6)},
+                            liquidity_strategy_factory=liquidity.InfiniteLiquidity)
+            e.add_bar_source(bs.FifoQueueEventSource())
+            for p in (P, P2):
+                e.set_pair_info(p, bs.PairInfo(0, 2))
+            for s_ in ("BTC", "ETH"):
+                e.set_symbol_precision(s_, 0)
+            e.set_symbol_precision("USD", 2)
+            flat = (D(100), D(100), D(100), D(100))
+            t = 1
+            d._set_now(T(t))
+            call(e._on_bar_event(bs.BarEvent(T(t), bs.Bar(T(t - 1), P, *flat, D(1000)))))
+            op = SIDE[side]
+            if kind == "mkt":
+                oid = call(e.create_market_order(op, P, D(1))).id
+            elif kind == "lim":
+                oid = call(e.create_limit_order(op, P, D(1), D(90) if side == "B" else D(110))).id
+            elif kind == "stp":
+                oid = call(e.create_stop_order(op, P, D(1), D(110) if side == "B" else D(90))).id
+            else:
+                oid = call(e.create_stop_limit_order(op, P, D(1), D(110) if side == "B" else D(90), D(110) if side == "B" else D(90))).id
+            for k in range(extra_lookups):
+                call(e.get_open_orders())
+            for k in range(n_other):
+                t += 1
+                d._set_now(T(t))
+                call(e._on_bar_event(bs.BarEvent(T(t), bs.Bar(T(t - 1), P2, *flat, D(1000)))))
+            t += 1
+            d._set_now(T(t))
+            wide = (D(100), D(110), D(90), D(100))
+            call(e._on_bar_event(bs.BarEvent(T(t), bs.Bar(T(t - 1), P, *wide, D(1000)))))
+            info = call(e.get_order_info(oid))
+            res.executions += 1
+            res.transitions += n_other + 2
+            res.validated += 1
+            key = h64(("long", kind, side, n_other, extra_lookups))
+            res.states.add(key)
+            res.nontrivial.add(key)
+            res.outcomes["long:filled" if info.amount_filled == 1 else "long:not-filled"] += 1
+            if info.amount_filled != D(1):
+                case = dict(kind="long", order=kind, side=side, other_pair_bars=n_other, extra_lookups=extra_lookups)
+                res.violation(f"{PROPERTY}:not-filled-by-first-reaching-bar:{kind}:{side}",
+                              f"{kind} order not filled by the first bar of its pair whose range reaches its price, after "
+                              f"{n_other} bars of another pair; {case}", case, size=n_other)
+    res.samples.append(dict(kind="long", order=kind, side=side, other_pair_bars="0..%d" % (maxn - 1)))
+    return res
+
+
 def run_scenario(sc, tier):
     res = Result()
+    if sc[0] == "long":
+        return run_long(sc, tier, res)
     ci, kind, side, lim_s = sc
     cfg = CONFIGS[ci]
     liq = cfg[0]
@@ -179,8 +240,8 @@ def run_scenario(sc, tier):
            (D(90), D(110), D(90), D(100))]
     if tier == "thorough":
         SH2 += [(D(110), D(110), D(110), D(110)), (D(90), D(90), D(90), D(90))]
-    vols = (1000,) if liq is None else (0, 10, 12, 1000)
-    vols2 = (1000,) if liq is None else (10, 1000)
+    vols = (1000, 0) if liq is None else (0, 10, 12, 1000)  # infinite liquidity does not depend on the bar's volume
+    vols2 = (1000, 0) if liq is None else (10, 1000)
     stps = grid if kind in ("stp", "sl") else [None]
     nbars = BOUNDS[tier]["bars"]
     for amount in (1, 3):
@@ -219,6 +280,10 @@ def _s(x):
 
 
 def replay(rep):
+    if rep.get("kind") == "long":
+        res = Result()
+        run_long(("long", rep["order"], rep["side"]), "quick", res)
+        return [v["message"] for v in res.violations if f"'other_pair_bars': {rep['other_pair_bars']}," in v["message"]][:3]
     cfg = tuple(tuple(x) if isinstance(x, list) else x for x in rep["config"])
     bars = [(tuple(D(x) for x in b[0]), b[1]) for b in rep["bars"]]
     lim = None if rep["limit"] is None else D(rep["limit"])
